@@ -128,9 +128,22 @@ def code_identities(ctx):
             if nth == 2 and name in ('hcp', 'rumpled', 'twoW', 'omegaR', 'omegaI', 'triclinic'): continue
             calc, calc6 = vc.calculator(name, nth, 4), vc.calculator(name, nth, 6)
             if nth == 1: _tie_generator(ctx, name, calc)
-            for t in range(3 if ctx.quick else 6):
+            dprev = None
+            for t in range((3 if ctx.quick else 6) + (2 if len(calc.sitelist) > 1 else 0)):
                 d = vc.rand_data(ctx.rng, calc, spread=(1.0 if t % 2 == 0 else 3.0), tracer=True)
+                repeat = len(calc.sitelist) > 1 and dprev is not None and t % 2 == 1
+                if repeat:
+                    # same calculator, same omega0 data, only the energy of a non-minimum vacancy Wyckoff set changed
+                    # (inputs that differ in one field only: nothing cached from the previous call may leak)
+                    d = {k: np.array(v, copy=True) for k, v in dprev.items()}
+                    bFV = d['eneV'] - np.log(d['preV'])
+                    w = int(np.argmax(bFV))
+                    d['eneV'][w] += ctx.rng.choice([0.3, 0.9, 1.7])
+                    d.update(calc.maketracerpreene(preT0=d['preT0'], eneT0=d['eneT0']))
+                dprev = d
                 kT = (1.0, 0.4, 2.5)[t % 3]      # the tracer identities hold at every temperature
+                if repeat: kT = kTprev
+                kTprev = kT
                 bf = calc.preene2betafree(kT, **d)
                 L0vv, Lss, Lsv, L1vv = calc.Lij(*bf); M = calc6.Lij(*bf)
                 sc = max(np.abs(L0vv).max(), 1e-300)
